@@ -2,6 +2,7 @@ package dig
 
 import (
 	"context"
+	"golang.org/x/sync/errgroup"
 	"sync"
 
 	"github.com/holiman/uint256"
@@ -120,8 +121,9 @@ func zzCheckCell(typ string, got any, want []byte, id string) {
 }
 
 // ZZ_C11_Log: one log against an event layout. Also decides the C13 gate.
-//   nt    number of topics of the log (0..5)
-//   match 1: topic0 is forced to the signature hash; 0: arbitrary
+//
+//	nt    number of topics of the log (0..5)
+//	match 1: topic0 is forced to the signature hash; 0: arbitrary
 func ZZ_C11_Log(layout, types, nt, match int) {
 	ev, tbl := zzLayout(layout, types)
 	bds := []BlockData{
@@ -242,9 +244,10 @@ func ZZ_C11_Log(layout, types, nt, match int) {
 // ZZ_C11_Insert: Integration.Insert over a block with several items; the rows
 // are read when COPY drains them (as pgx does), so values held by reference
 // are observed at the time they are stored.
-//   mode 0: transaction indexing, 2 transactions
-//   mode 1: trace indexing, 1 transaction with 2 trace actions
-//   mode 2: log indexing, 1 transaction with 2 logs of the event
+//
+//	mode 0: transaction indexing, 2 transactions
+//	mode 1: trace indexing, 1 transaction with 2 trace actions
+//	mode 2: log indexing, 1 transaction with 2 logs of the event
 func ZZ_C11_Insert(mode int) {
 	var ev Event
 	var bds []BlockData
@@ -390,9 +393,10 @@ var zzElemTypes = []string{"address", "uint256", "int256", "uint8", "bytes32", "
 // static leaf type; the log data is the reference ABI encoding (c09.go) of
 // alen symbolic elements. One row per element; the cell is the element mapped
 // by its leaf type (addresses 20 bytes, integers exact), abi_idx counts from 0.
-//   elem   index into zzElemTypes
-//   fixed  0: T[] with alen elements; k>0: T[k]
-//   second 1: a second selected scalar input follows the array
+//
+//	elem   index into zzElemTypes
+//	fixed  0: T[] with alen elements; k>0: T[k]
+//	second 1: a second selected scalar input follows the array
 func ZZ_C11_Array(elem, fixed, alen, second int) {
 	leaf := zzElemTypes[elem]
 	typ := leaf + "[]"
@@ -516,5 +520,59 @@ func ZZ_C11_NegInt() {
 	}
 	zzvrf.Assert(got == want, "signed-integer-rendered-as-exact-decimal")
 	zzvrf.Assert(x == orig, "value-does-not-modify-the-integer")
+	zzvrf.Reach("end")
+}
+
+// ZZ_C18_DigInsert: two partitions of one step run Integration.Insert
+// concurrently, each on its own Integration instance (as Task.insert does with
+// its per-partition destinations) and its own blocks, sharing the connection
+// mutex. The event carries integer filters, so every filter code path with
+// scratch state runs in both goroutines. No two accesses may race.
+//
+//	kind 0: uint256 filter on an event input; 1: uint64 filter on a block field; 2: byte-string filter
+func ZZ_C18_DigInsert(kind int) {
+	mk := func() (Integration, error) {
+		ev := Event{Name: "Ev", Inputs: []Input{{Name: "a", Type: "uint256", Indexed: true, Column: "c_a"}}}
+		bds := []BlockData{{Name: "log_idx", Column: "log_idx"}, {Name: "log_addr", Column: "log_addr"}}
+		switch kind {
+		case 0:
+			ev.Inputs[0].Filter = Filter{Op: "gt", Arg: []string{"1000"}}
+		case 1:
+			bds[0].Filter = Filter{Op: "gt", Arg: []string{"1"}}
+		case 2:
+			bds[1].Filter = Filter{Op: "contains", Arg: []string{"0x0102030405060708090a0b0c0d0e0f1011121314"}}
+		}
+		tbl := wpg.Table{Name: "t", Columns: []wpg.Column{{Name: "c_a", Type: "numeric"}, {Name: "log_idx", Type: "x"}, {Name: "log_addr", Type: "x"}}}
+		return New("ig1", ev, bds, tbl, Notification{}, "")
+	}
+	igA, errA := mk()
+	igB, errB := mk()
+	zzvrf.Assert(errA == nil && errB == nil, "new-ok")
+	if errA != nil || errB != nil {
+		return
+	}
+	mkBlocks := func(ig Integration) []eth.Block {
+		blocks := make([]eth.Block, 1)
+		b := &blocks[0]
+		b.Header.Number = eth.Uint64(zzvrf.U64("block_num"))
+		b.Txs = make(eth.Txs, 1)
+		t := &b.Txs[0]
+		t.PrecompHash = zzvrf.Bytes("tx_hash", 32, 32)
+		topic1 := zzvrf.Bytes("topic1", 32, 32)
+		t.Logs = eth.Logs{{Idx: eth.Uint64(zzvrf.U64("log_idx")), Address: zzvrf.Bytes("log_addr", 20, 20), Topics: []eth.Bytes{append([]byte(nil), ig.sighash...), topic1}}}
+		return blocks
+	}
+	blocksA, blocksB := mkBlocks(igA), mkBlocks(igB)
+	ctx := wctx.WithSrcName(context.Background(), "src1")
+	conn := &zzConn{}
+	var mut sync.Mutex
+	zzvrf.RaceRecord(true)
+	var eg errgroup.Group
+	eg.Go(func() error { _, err := igA.Insert(ctx, &mut, conn, blocksA); return err })
+	eg.Go(func() error { _, err := igB.Insert(ctx, &mut, conn, blocksB); return err })
+	err := eg.Wait()
+	zzvrf.RaceRecord(false)
+	zzvrf.Assert(err == nil, "inserts-succeed")
+	zzvrf.RaceCheck("no-data-race")
 	zzvrf.Reach("end")
 }
